@@ -414,7 +414,7 @@ fn operands(op: &Op) -> Vec<usize> {
         Detach(a) | Remove(a) | Wrap(a, _) | Unwrap(a) | CloneNode(a) | CloneWithPrefixes(a)
         | AttrInsert(a, ..) | AttrRemove(a, ..) | AttrClear(a) | AttrGetMut(a, ..)
         | SetAttribute(a, ..) | RemoveAttribute(a, ..) | AttrEntryOrInsert(a, ..)
-        | NsInsert(a, ..) | NsRemove(a, ..) | NsClear(a) | SetNamespace(a, ..)
+        | NsInsert(a, ..) | NsRemove(a, ..) | NsClear(a) | SetNamespace(a, ..) | AppendNamespace(a, ..) | ElementMutSetName(a, ..) | PiSetTarget(a, ..)
         | RemoveNamespace(a, ..) | SetElementName(a, ..) | TextSet(a, ..) | CommentSet(a, ..)
         | PiSetData(a, ..) | AttrNodeSet(a, ..) | NsNodeSet(a, ..) | TextContentSet(a, ..)
         | AppendText(a, ..) | AppendElement(a, ..) | AppendComment(a, ..) | AppendPi(a, ..)
